@@ -111,7 +111,12 @@ pub fn run_src_bytes(data: &[u8]) {
         return;
     }
     let Some(w) = which(&c.prop) else { return };
-    let Some(case) = vlib::fuzzdec::src_case(data, w == Which::C13) else { return };
+    let Some(mut case) = vlib::fuzzdec::src_case(data, w == Which::C13) else { return };
+    // import reordering is part of the configuration space of C01, C03, C04 and C11 only (C19 tests it
+    // itself; for the other oracles the order of import items is not theirs to judge)
+    if !matches!(w, Which::C01 | Which::C03 | Which::C04 | Which::C11) {
+        case.cfg.reorder = false;
+    }
     if case.src.len() > 16 * 1024 {
         return;
     }
